@@ -742,6 +742,50 @@ fn corpus_scenario(idx: u64, specs: &[NodeSpec], ms: &[u8]) -> Scenario {
     Scenario { property: PROP.into(), stage: "corpus-merges".into(), nodes, ops, workers: 0 }
 }
 
+/// corpus-large-windows (fixed): every O(1)-per-call kind with a window of 4096+ slots: two same-parameter
+/// instances fed in interleaved chunks for six revolutions, a clone taken after 1.5 revolutions and continued
+/// (work that only happens on large windows - chunked or parallel re-computation - must stay deterministic)
+fn large_specs(periods: &[usize]) -> Vec<NodeSpec> {
+    let mut v = vec![];
+    for &k in ALL_KINDS.iter() {
+        if !gen::cheap_per_tick(k) || k.n_periods() == 0 {
+            continue;
+        }
+        for &p in periods {
+            let mode = if k.has_scalar() { Mode::Scalar } else { Mode::Bar };
+            v.push(NodeSpec { kind: k, params: Params::new(p, 3, 2, 2.0), mode, dflt: false });
+        }
+    }
+    v
+}
+
+fn large_scenario(idx: u64, specs: &[NodeSpec]) -> Scenario {
+    let spec = specs[idx as usize];
+    let p = spec.params.p1 as u64;
+    let chunk = p / 2 + 1;
+    let g = |seed: u64| world::StreamDesc { regime: world::Regime::Walk, level: crate::sut::Fx(0.37), saw: 5, seed, neg: false };
+    let mut ops = vec![];
+    let mut fed = [0u64; 3];
+    let push = |ops: &mut Vec<Op>, n: usize, fed: &mut [u64; 3]| {
+        ops.push(Op::Gen { n, g: g(idx * 10 + n as u64), skip: fed[n], len: chunk, fault: None, every: 0, reset_every: 0, clone_every: 0 });
+        fed[n] += chunk;
+    };
+    for r in 0..12 {
+        push(&mut ops, 0, &mut fed);
+        push(&mut ops, 1, &mut fed);
+        if r == 2 {
+            ops.push(Op::Fork { src: 0, dst: 2, into: false });
+            fed[2] = fed[0];
+        }
+        if r >= 3 {
+            // the clone gets the original's stream from where the original was when it was cloned
+            ops.push(Op::Gen { n: 2, g: g(idx * 10), skip: fed[2], len: chunk, fault: None, every: 0, reset_every: 0, clone_every: 0 });
+            fed[2] += chunk;
+        }
+    }
+    Scenario { property: PROP.into(), stage: "corpus-large-windows".into(), nodes: vec![spec, spec], ops, workers: 0 }
+}
+
 // ---------------------------------------------------------------------------------------------
 
 /// Stage D child: run a slice of stage A and B and print the digest (no files written).
@@ -873,7 +917,15 @@ pub fn run(tier: Tier) -> i32 {
     let (a_runs, b_runs) = (gen::scaled(a_runs), gen::scaled(b_runs));
     let corpus = run_stage_opt("corpus-merges", if gen::skip_fixed() { 1 } else { corpus_count(&specs) }, wall_cap, &mut total, &|i| corpus_scenario(i, &specs, &ms), &exec, &[1234], 16, true);
     let mut stages_owned: Vec<StageOut> = vec![corpus];
-    if stages_owned[0].found.is_none() {
+    if stages_owned[0].found.is_none() && !gen::skip_fixed() {
+        let lp: &[usize] = match tier {
+            Tier::Quick => &[4096, 4097],
+            Tier::Thorough => &[4096, 4097, 8192, 12_289],
+        };
+        let lspecs = large_specs(lp);
+        stages_owned.push(run_stage_opt("corpus-large-windows", lspecs.len() as u64, wall_cap, &mut total, &|i| large_scenario(i, &lspecs), &exec, &[], 0, true));
+    }
+    if stages_owned.iter().all(|s| s.found.is_none()) {
         stages_owned.push(run_stage_opt("stageA", a_runs, wall_cap, &mut total, &|i| generate(&mut Rng::new(run_seed(c.seed, PROP, "stageA", i)), tier, 0), &exec, &[0], 20, true));
     }
     if stages_owned.iter().all(|s| s.found.is_none()) {
